@@ -59,7 +59,7 @@ PROPS = {
         decided="validation precedes mutation or is rolled back; validator dispatch covers every annotation form; the three allowed-values refusals raise; both entry paths call both validators; defaults table covers quantity parameters; __setattr__ overrides delegate",
         not_decided="nothing stated as undecided; the checks are structural"),
     "C15": dict(
-        rules=["R-TXN:recompute", "R-EDGE", "R-RULE-TXN", "R-CACHE:update"],
+        rules=["R-TXN:recompute", "R-EDGE", "R-RULE-TXN", "R-CACHE:update", "R-WRITE"],
         decided="an exception leaving the recompute loop restores every value already replaced (the handler sees partial progress); a raising rule raises before it assigns; re-attachment registers children unconditionally",
         not_decided="behaviour of arbitrary later histories"),
     "C16": dict(
@@ -75,11 +75,11 @@ PROPS = {
         decided="def-before-use in the canonical schedule (and its reordering guards), rules write only their own attribute, acyclicity, no value-changing in-place call on model state, no store into .value from outside, read-only views",
         not_decided="determinism of pint/pandas (trusted)"),
     "C19": dict(
-        rules=["R-SEL", "R-IDFLOW", "R-LEAK", "R-ACCUM", "R-OBJID"],
-        decided="positional selection from hash-ordered collections only at proven-singleton sites; identity never flows into values; object ids unique per object; no loop variable read after its loop and no order-dependent accumulation (scaling inside a loop) over set-ordered collections",
+        rules=["R-SEL", "R-IDFLOW", "R-LEAK", "R-ACCUM", "R-OBJID", "R-LASTWINS"],
+        decided="positional selection from hash-ordered collections only at proven-singleton sites; identity never flows into values; object ids unique per object; no loop variable read after its loop, no order-dependent accumulation (scaling inside a loop) and no last-element-wins overwrite inside loops over set-ordered collections",
         not_decided="last-ulp effects of summation order over set-ordered collections (listed, not alarmed)"),
     "C20": dict(
-        rules=["R-THREAD", "R-CACHE:time"],
-        decided="every builder threads start_date, pint_unit and its value parameters into the frame it returns; every date_range starts at start_date and is hourly; what decides an hour is read from its timestamp, not its position",
-        not_decided="calendar logic, lengths, leap years (pandas date_range semantics)"),
+        rules=["R-THREAD", "R-CACHE:time", "R-TRUNC"],
+        decided="every builder threads start_date, pint_unit and its value parameters into the frame it returns; every date_range starts at start_date and is hourly; what decides an hour is read from its timestamp, not its position; hour counts are not obtained by truncating a converted float duration (F17, fixed); memo tables / cached results are keyed completely and not mutated",
+        not_decided="calendar logic, lengths (beyond the truncation clause), leap years (pandas date_range semantics)"),
 }
